@@ -418,6 +418,27 @@ pub fn c14(ctx: &mut Ctx) {
                 faults.push((format!("{p}{d:+}"), vec![setf(p.to_string(), v)], false));
             }
         }
+        // exponent aliases: 2^(e + k·ord(2)) = 2^e in the field
+        if let Ok(e0) = u64::try_from(getf("log_n_steps").to_biguint()) {
+            let al = models::exponent_aliases(e0);
+            for v in [al.first(), al.last()].into_iter().flatten() {
+                faults.push(("log_n_steps=alias".into(), vec![setf("log_n_steps".into(), *v)], false));
+            }
+        }
+        // output segment: lengths that agree with the honest one (or with 0) in the low machine word
+        {
+            let (ob, oe) = (getf("segments[2].begin_addr"), getf("segments[2].stop_ptr"));
+            for (nm, v) in [("output:stop+2^64", oe + models::pow2(64)), ("output:stop+k*2^64", oe + models::pow2(64) * Felt::from(rng.range(2, 1 << 30))), ("output:stop+2^128", oe + models::pow2(128)), ("output:stop=begin-1", ob - Felt::ONE), ("output:stop=begin+2^64", ob + models::pow2(64))] {
+                faults.push((nm.into(), vec![setf("segments[2].stop_ptr".into(), v)], false));
+            }
+            faults.push(("output:begin+2^64".into(), vec![setf("segments[2].begin_addr".into(), ob + models::pow2(64))], false));
+            let (pb, pe) = (getf("segments[0].begin_addr"), getf("segments[0].stop_ptr"));
+            faults.push(("program:begin+2^64".into(), vec![setf("segments[0].begin_addr".into(), pb + models::pow2(64))], false));
+            faults.push(("program:stop+2^64".into(), vec![setf("segments[0].stop_ptr".into(), pe + models::pow2(64))], false));
+            let (eb, ee) = (getf("segments[1].begin_addr"), getf("segments[1].stop_ptr"));
+            faults.push(("execution:begin+2^64".into(), vec![setf("segments[1].begin_addr".into(), eb + models::pow2(64))], false));
+            faults.push(("execution:stop+2^64".into(), vec![setf("segments[1].stop_ptr".into(), ee + models::pow2(64))], false));
+        }
         faults.push(("range_check_max=0xffff".into(), vec![setf("range_check_max".into(), Felt::from(0xffffu64))], false));
         faults.push(("range_check_max=0x10000".into(), vec![setf("range_check_max".into(), Felt::from(0x10000u64))], false));
         faults.push(("range_check_min=max+1".into(), vec![setf("range_check_min".into(), getf("range_check_max") + Felt::ONE)], false));
